@@ -1,9 +1,10 @@
 /-
   C15Hist.lean — induction over operation histories (`Hist.run`).
 
-  `Hist.Graded G lp Inv TanOK`: a family of predicates `Inv m` on coefficient vectors, indexed by a
-  weight `m`, that is respected by the group operations with the weights adding up exactly like
-  the size of an expression tree (`Hist.opWeight`).  `Hist.run_graded`: after ANY history every
+  `Hist.Graded G C Inv InvL TanOK`: families of predicates `Inv m` / `InvL m` on the coefficient
+  vectors of the element / lifted registers, indexed by a weight `m`, that are respected by the
+  group operations and by `lift` / `project` with the weights adding up exactly like the size of
+  an expression tree (`Hist.opWeight`, `Hist.opWeightL`).  `Hist.run_graded`: after ANY history every
   register `r` satisfies `Inv (opWeight ops w₀ r)`.  With `Inv m` constant in `m` this is an
   invariant (unit norm, canonical sign); with `Inv m q := (1−ε)^m ≤ ‖q‖² ≤ (1+ε)^m` it is the
   drift recurrence over expression trees.
@@ -21,34 +22,44 @@ theorem upd_same {β : Type} (f : Nat → β) (d : Nat) (v : β) : upd f d v d =
 theorem upd_ne {β : Type} (f : Nat → β) (d : Nat) (v : β) {i : Nat} (h : i ≠ d) : upd f d v i = f i := by
   simp [upd, h]
 
-variable {G : LieModel ℝ} {lp : Vec ℝ G.rep → Vec ℝ G.rep}
+variable {G : LieModel ℝ} {C : Lifting ℝ G}
 
-/-- graded closure of a predicate under the operations of `G` -/
-structure Graded (G : LieModel ℝ) (lp : Vec ℝ G.rep → Vec ℝ G.rep) (Inv : Nat → Vec ℝ G.rep → Prop)
-    (TanOK : Vec ℝ G.dof → Prop) : Prop where
+/-- graded closure of a pair of predicates (`Inv` on element registers, `InvL` on lifted registers)
+    under the operations of `G` and the lift / project maps of its companion type `C` -/
+structure Graded (G : LieModel ℝ) (C : Lifting ℝ G) (Inv : Nat → Vec ℝ G.rep → Prop)
+    (InvL : Nat → Vec ℝ C.lrep → Prop) (TanOK : Vec ℝ G.dof → Prop) : Prop where
   comp : ∀ m n a b, Inv m a → Inv n b → Inv (m + n + 1) (G.composition a b)
   inv : ∀ m a, Inv m a → Inv (m + 1) (G.inverse a)
   exp : ∀ a, TanOK a → Inv 1 (G.exp a)
-  lp : ∀ m a, Inv m a → Inv (m + 1) (lp a)
+  lift : ∀ m a, Inv m a → InvL (m + 1) (C.lift a)
+  project : ∀ m a, InvL m a → Inv (m + 1) (C.project a)
 
-theorem run_nil (s : State ℝ G) : run G lp [] s = s := rfl
-theorem run_cons (o : Op ℝ G.dof) (ops : List (Op ℝ G.dof)) (s : State ℝ G) :
-    run G lp (o :: ops) s = run G lp ops (step G lp s o) := rfl
+theorem run_nil (s : State ℝ G C) : run G C [] s = s := rfl
+theorem run_cons (o : Op ℝ G.dof) (ops : List (Op ℝ G.dof)) (s : State ℝ G C) :
+    run G C (o :: ops) s = run G C ops (step G C s o) := rfl
 
-theorem opWeight_nil (w : Nat → Nat) : opWeight (α := ℝ) (dof := G.dof) [] w = w := rfl
-theorem opWeight_cons (o : Op ℝ G.dof) (ops : List (Op ℝ G.dof)) (w : Nat → Nat) :
-    opWeight (o :: ops) w = opWeight ops (opWeightStep w o) := rfl
+theorem opWeights_nil (w : Weights) : opWeights (α := ℝ) (dof := G.dof) [] w = w := rfl
+theorem opWeights_cons (o : Op ℝ G.dof) (ops : List (Op ℝ G.dof)) (w : Weights) :
+    opWeights (o :: ops) w = opWeights ops (opWeightStep w o) := rfl
 
-theorem expArgs_cons (o : Op ℝ G.dof) (ops : List (Op ℝ G.dof)) (s : State ℝ G) :
-    expArgs G lp (o :: ops) s = expArgsOp G s o ++ expArgs G lp ops (step G lp s o) := rfl
+theorem expArgs_cons (o : Op ℝ G.dof) (ops : List (Op ℝ G.dof)) (s : State ℝ G C) :
+    expArgs G C (o :: ops) s = expArgsOp G s o ++ expArgs G C ops (step G C s o) := rfl
 
 section
-variable {Inv : Nat → Vec ℝ G.rep → Prop} {TanOK : Vec ℝ G.dof → Prop}
+variable {Inv : Nat → Vec ℝ G.rep → Prop} {InvL : Nat → Vec ℝ C.lrep → Prop} {TanOK : Vec ℝ G.dof → Prop}
 
-/-- one op preserves the graded invariant -/
-theorem step_graded (H : Graded G lp Inv TanOK) (s : State ℝ G) (w : Nat → Nat)
-    (hs : ∀ r, Inv (w r) (s.E r)) (o : Op ℝ G.dof) (hT : ∀ a ∈ expArgsOp G s o, TanOK a) :
-    ∀ r, Inv (opWeightStep w o r) ((step G lp s o).E r) := by
+/-- the round trip `lift().project()` costs two primitive operations -/
+theorem Graded.lp (H : Graded G C Inv InvL TanOK) (m : Nat) (a : Vec ℝ G.rep) (h : Inv m a) :
+    Inv (m + 1 + 1) (C.lp a) := by
+  unfold Lifting.lp
+  rw [memoV_eq]
+  exact H.project _ _ (H.lift _ _ h)
+
+/-- one op preserves the graded invariant of the element registers … -/
+theorem step_graded (H : Graded G C Inv InvL TanOK) (s : State ℝ G C) (w : Weights)
+    (hs : ∀ r, Inv (w.1 r) (s.E r)) (hl : ∀ r, InvL (w.2 r) (s.L r)) (o : Op ℝ G.dof)
+    (hT : ∀ a ∈ expArgsOp G s o, TanOK a) :
+    ∀ r, Inv ((opWeightStep w o).1 r) ((step G C s o).E r) := by
   intro r
   cases o with
   | compose d a b =>
@@ -93,33 +104,57 @@ theorem step_graded (H : Graded G lp Inv TanOK) (s : State ℝ G) (w : Nat → N
     · subst h; simp only [step, opWeightStep, upd_same, memoV_eq, LieModel.rplus]
       exact H.comp _ _ _ _ (hs a) (H.exp _ (hT _ (by simp [expArgsOp])))
     · simp only [step, opWeightStep, upd_ne _ _ _ h]; exact hs r
+  | lift d a =>
+    simp only [step, opWeightStep]; exact hs r
+  | project d a =>
+    by_cases h : r = d
+    · subst h; simp only [step, opWeightStep, upd_same, memoV_eq]; exact H.project _ _ (hl a)
+    · simp only [step, opWeightStep, upd_ne _ _ _ h]; exact hs r
 
-/-- **Induction over histories.**  If the initial registers satisfy the graded invariant with
+/-- … and of the lifted registers (only `lift` writes them) -/
+theorem step_gradedL (H : Graded G C Inv InvL TanOK) (s : State ℝ G C) (w : Weights)
+    (hs : ∀ r, Inv (w.1 r) (s.E r)) (hl : ∀ r, InvL (w.2 r) (s.L r)) (o : Op ℝ G.dof) :
+    ∀ r, InvL ((opWeightStep w o).2 r) ((step G C s o).L r) := by
+  intro r
+  cases o with
+  | lift d a =>
+    by_cases h : r = d
+    · subst h; simp only [step, opWeightStep, upd_same, memoV_eq]; exact H.lift _ _ (hs a)
+    · simp only [step, opWeightStep, upd_ne _ _ _ h]; exact hl r
+  | _ => simp only [step, opWeightStep]; exact hl r
+
+/-- **Induction over histories.**  If the initial registers satisfy the graded invariants with
     weights `w₀` and every tangent that reaches `exp` is admissible, then after the whole history
-    register `r` satisfies the invariant at the weight of its expression tree. -/
-theorem run_graded (H : Graded G lp Inv TanOK) (ops : List (Op ℝ G.dof)) :
-    ∀ (s : State ℝ G) (w : Nat → Nat), (∀ r, Inv (w r) (s.E r)) →
-      (∀ a ∈ expArgs G lp ops s, TanOK a) →
-      ∀ r, Inv (opWeight ops w r) ((run G lp ops s).E r) := by
+    element register `r` satisfies `Inv` and lifted register `r` satisfies `InvL`, each at the
+    weight of its expression tree. -/
+theorem run_graded (H : Graded G C Inv InvL TanOK) (ops : List (Op ℝ G.dof)) :
+    ∀ (s : State ℝ G C) (w : Weights), (∀ r, Inv (w.1 r) (s.E r)) → (∀ r, InvL (w.2 r) (s.L r)) →
+      (∀ a ∈ expArgs G C ops s, TanOK a) →
+      (∀ r, Inv (opWeight ops w r) ((run G C ops s).E r)) ∧
+      (∀ r, InvL (opWeightL ops w r) ((run G C ops s).L r)) := by
   induction ops with
-  | nil => intro s w hs _ r; exact hs r
+  | nil => intro s w hs hl _; exact ⟨hs, hl⟩
   | cons o ops ih =>
-    intro s w hs hT r
-    rw [run_cons, opWeight_cons]
+    intro s w hs hl hT
+    rw [run_cons]
+    unfold opWeight opWeightL
+    rw [opWeights_cons]
     rw [expArgs_cons] at hT
     apply ih
-    · exact step_graded H s w hs o (fun a ha => hT a (List.mem_append_left _ ha))
+    · exact step_graded H s w hs hl o (fun a ha => hT a (List.mem_append_left _ ha))
+    · exact step_gradedL H s w hs hl o
     · exact fun a ha => hT a (List.mem_append_right _ ha)
 
-/-- ungraded corollary: a predicate closed under the operations holds after every history -/
-theorem run_invariant {P : Vec ℝ G.rep → Prop}
+/-- ungraded corollary: predicates closed under the operations hold after every history -/
+theorem run_invariant {P : Vec ℝ G.rep → Prop} {Q : Vec ℝ C.lrep → Prop}
     (hcomp : ∀ a b, P a → P b → P (G.composition a b)) (hinv : ∀ a, P a → P (G.inverse a))
-    (hexp : ∀ a, TanOK a → P (G.exp a)) (hlp : ∀ a, P a → P (lp a))
-    (ops : List (Op ℝ G.dof)) (s : State ℝ G) (hs : ∀ r, P (s.E r))
-    (hT : ∀ a ∈ expArgs G lp ops s, TanOK a) : ∀ r, P ((run G lp ops s).E r) := by
-  have H : Graded G lp (fun _ => P) TanOK :=
-    ⟨fun _ _ a b => hcomp a b, fun _ a => hinv a, hexp, fun _ a => hlp a⟩
-  exact run_graded H ops s (fun _ => 0) hs hT
+    (hexp : ∀ a, TanOK a → P (G.exp a)) (hlift : ∀ a, P a → Q (C.lift a)) (hproj : ∀ a, Q a → P (C.project a))
+    (ops : List (Op ℝ G.dof)) (s : State ℝ G C) (hs : ∀ r, P (s.E r)) (hl : ∀ r, Q (s.L r))
+    (hT : ∀ a ∈ expArgs G C ops s, TanOK a) :
+    (∀ r, P ((run G C ops s).E r)) ∧ (∀ r, Q ((run G C ops s).L r)) := by
+  have H : Graded G C (fun _ => P) (fun _ => Q) TanOK :=
+    ⟨fun _ _ a b => hcomp a b, fun _ a => hinv a, hexp, fun _ a => hlift a, fun _ a => hproj a⟩
+  exact run_graded H ops s W0 hs hl hT
 
 end
 
